@@ -46,11 +46,12 @@ type Engine struct {
 	usedAxioms map[string]string
 	prop     string
 	regionRef map[string]string // leaf region -> "ref" | "map:<key sort>" when it stores references
+	globalIDs map[string]int
 }
 
 func newEngine() *Engine {
 	return &Engine{pkgs: map[string]*PkgInfo{}, cs: newContractSet(), regions: map[string]regionInfo{}, typeTags: map[string]int{},
-		tagTypes: map[int]types.Type{}, closures: map[Term]Val{}, boxes: map[Term]Val{}, ufs: map[string]ufInfo{}, usedAxioms: map[string]string{}, regionRef: map[string]string{}, texts: map[*ssa.Function]map[ssa.Value]string{}}
+		tagTypes: map[int]types.Type{}, closures: map[Term]Val{}, boxes: map[Term]Val{}, ufs: map[string]ufInfo{}, usedAxioms: map[string]string{}, regionRef: map[string]string{}, globalIDs: map[string]int{}, texts: map[*ssa.Function]map[ssa.Value]string{}}
 }
 
 // load loads the given package patterns of one module directory.
